@@ -69,3 +69,155 @@ def run_c15(rep, tier):
     finally:
         ws.close()
     return [], fails
+
+
+# ---- matrix: every kind of local entity x every name the generated file gives a meaning of its own ----------
+# Each template is one function (or a small group of declarations) in which NAME is a *local* entity; the body
+# also uses the packages through the source file's aliases (str = strings, depx = other/dep, dep, fmt), so that
+# a local left un-renamed (or renamed in one place only) captures the import name of the generated file and the
+# package no longer compiles or prints something else.
+KINDS = [
+    ("var", 'func F_@() string {\n\tNAME := 3\n\tNAME++\n\treturn fmt.Sprint(NAME, USE)\n}'),
+    ("const", 'func F_@() string {\n\tconst NAME = 4\n\treturn fmt.Sprint(NAME+1, USE)\n}'),
+    ("type", 'func F_@() string {\n\ttype NAME struct{ Z int }\n\tv := NAME{Z: 5}\n\tvar p *NAME = &v\n\treturn fmt.Sprint(p.Z, USE)\n}'),
+    ("param", 'func F_@() string { return g_@(6) }\n\nfunc g_@(NAME int) string { return fmt.Sprint(NAME*2, USE) }'),
+    ("result", 'func F_@() (NAME string) {\n\tdefer func() { NAME += "!" }()\n\tNAME = fmt.Sprint(USE)\n\treturn\n}'),
+    ("receiver", 'type r_@ struct{ w int }\n\nfunc (NAME r_@) m() string { return fmt.Sprint(NAME.w, USE) }\n\nfunc F_@() string { return r_@{w: 7}.m() }'),
+    ("closure-param", 'func F_@() string {\n\tf := func(NAME int) string { return fmt.Sprint(NAME+1, USE) }\n\treturn f(8)\n}'),
+    ("range", 'func F_@() string {\n\ts := ""\n\tfor NAME, v := range []string{"p", "q"} {\n\t\ts += fmt.Sprint(NAME, v, USE)\n\t}\n\treturn s\n}'),
+    ("typeswitch", 'func F_@() string {\n\tvar v interface{} = 9\n\tswitch NAME := v.(type) {\n\tcase int:\n\t\treturn fmt.Sprint(NAME+1, USE)\n\tdefault:\n\t\treturn fmt.Sprint(NAME)\n\t}\n}'),
+    ("label-back", 'func F_@() string {\n\tn := 0\nNAME:\n\tfor {\n\t\tfor {\n\t\t\tn++\n\t\t\tif n > 2 {\n\t\t\t\tbreak NAME\n\t\t\t}\n\t\t\tcontinue NAME\n\t\t}\n\t}\n\treturn fmt.Sprint(n, USE)\n}'),
+    ("label-forward", 'func F_@() string {\n\ts := "a"\n\tif len(s) == 1 {\n\t\tgoto NAME\n\t}\n\ts += "skipped"\nNAME:\n\ts += "b"\n\treturn fmt.Sprint(s, USE)\n}'),
+    ("typeparam", 'func g_@[NAME any](x NAME) string { var z NAME; return fmt.Sprint(x, z, USE) }\n\nfunc F_@() string { return g_@(10) + g_@[string]("s") }'),
+    ("typeparam-forward", 'func g_@[S ~[]NAME, NAME any](s S) NAME { var z NAME; if len(s) > 0 { z = s[0] }; return z }\n\nfunc F_@() string { return fmt.Sprint(g_@([]int{11, 12}), USE) }'),
+    ("generic-type", 'type b_@[NAME any] struct{ V NAME }\n\nfunc (b b_@[NAME]) get() NAME { return b.V }\n\nfunc F_@() string { return fmt.Sprint(b_@[int]{V: 13}.get(), USE) }'),
+    ("select", 'func F_@() string {\n\tch := make(chan int, 1)\n\tch <- 14\n\tselect {\n\tcase NAME := <-ch:\n\t\treturn fmt.Sprint(NAME, USE)\n\t}\n}'),
+    ("if-init", 'func F_@() string {\n\tif NAME := len("abc"); NAME > 2 {\n\t\treturn fmt.Sprint(NAME, USE)\n\t} else {\n\t\treturn fmt.Sprint(-NAME)\n\t}\n}'),
+    ("field", 'func F_@() string {\n\ttype t struct{ NAME int }\n\tv := t{NAME: 15}\n\tv.NAME++\n\treturn fmt.Sprint(v.NAME, USE)\n}'),
+    ("method", 'type m_@ struct{}\n\nfunc (m_@) NAME() string { return "m" }\n\nfunc F_@() string { return fmt.Sprint(m_@{}.NAME(), USE) }'),
+    ("shadow", 'func F_@() string {\n\tNAME := 1\n\t{\n\t\tNAME := "inner"\n\t\t_ = NAME\n\t\t{\n\t\t\tNAME := 2.5\n\t\t\t_ = NAME\n\t\t}\n\t}\n\treturn fmt.Sprint(NAME, USE)\n}'),
+    ("recursion", 'func F_@() string {\n\tvar NAME func(int) int\n\tNAME = func(n int) int {\n\t\tif n == 0 {\n\t\t\treturn 0\n\t\t}\n\t\treturn n + NAME(n-1)\n\t}\n\treturn fmt.Sprint(NAME(4), USE)\n}'),
+    ("use-before-closure", 'func F_@() string {\n\tf := func() string { return fmt.Sprint(USE) }\n\tNAME := f()\n\treturn NAME + f()\n}'),
+    ("suffix-local", 'func F_@() string {\n\tNAME, NAME2 := 1, "two"\n\tNAME3 := 3.5\n\treturn fmt.Sprint(NAME, NAME2, NAME3, USE)\n}'),
+    ("suffix-outer", 'func F_@() string {\n\tNAME2 := "outer"\n\tf := func() string {\n\t\tNAME := 1\n\t\treturn fmt.Sprint(NAME, NAME2, USE)\n\t}\n\treturn f()\n}'),
+    ("suffix-param", 'func F_@() string { return g_@(1, "p") }\n\nfunc g_@(NAME int, NAME2 string) string { return fmt.Sprint(NAME, NAME2, USE) }'),
+    ("two-locals", 'func F_@() string {\n\tNAME, NAME2 := 1, 2\n\treturn fmt.Sprint(NAME, NAME2, USE)\n}'),
+]
+# names that mean something in the generated file: `strings` and `dep2` are import names only there (the source says
+# str and depx), `fmt` and `dep` are import names in both, `helper` is a package-level function
+NAMES = ["strings", "dep2", "fmt", "dep", "helper", "str", "depx", "ok"]
+USES = {"strings": 'str.ToUpper("u"), depx.NewB().M', "dep2": 'depx.NewB().M, str.Repeat("r", 2)', "fmt": 'str.Title("t")', "dep": "dep.Exported, depx.NewB().M",
+        "helper": 'aide(), str.ToLower("L")', "str": 'str.TrimSpace(" s "), dep.NewA().N', "depx": "depx.NewB().M, dep.NewA().N", "ok": 'str.Count("aa", "a")'}
+
+
+def matrix_source():
+    body, calls = [], []
+    for kind, tmpl in KINDS:
+        for nm in NAMES:
+            tag = "%s_%s" % (re.sub(r"\W", "", kind), nm)
+            use = USES[nm]
+            if nm == "fmt" and kind not in ("label-back", "label-forward", "field", "method"):
+                # a local called fmt hides the package inside the function also in the source: print without it
+                t = tmpl.replace("fmt.Sprint(", "sprint(").replace("fmt.Sprint", "sprint")
+            elif nm in ("str", "dep", "depx") and kind not in ("label-back", "label-forward", "field", "method"):
+                # likewise the source's own alias is hidden: use the other packages only
+                use = {"str": "dep.NewA().N", "dep": "depx.NewB().M", "depx": "dep.NewA().N"}[nm]
+                t = tmpl
+            else:
+                t = tmpl
+            if kind.startswith("suffix"):
+                sfx = "_" if nm[-1].isdigit() else ""
+                t = t.replace("NAME2", nm + sfx + "2").replace("NAME3", nm + sfx + "3")
+            t = t.replace("NAME2", nm + "Two").replace("NAME", nm).replace("USE", use).replace("@", tag)
+            if kind in ("param", "closure-param", "typeparam", "typeparam-forward", "generic-type", "receiver", "result") and nm in ("str", "dep", "depx", "fmt"):
+                # the entity's scope covers the whole body / signature: keep what the body needs visible
+                pass
+            body.append("// %s / %s\n%s" % (kind, nm, t))
+            calls.append("F_%s" % tag)
+    hdr = ("//go:build wireinject\n// +build wireinject\n\npackage corp\n\nimport (\n\t\"fmt\"\n\tstr \"strings\"\n\n\t\"github.com/google/wire\"\n"
+           "\t\"example.com/c/corp/dep\"\n\tdepx \"example.com/c/corp/other/dep\"\n)\n\n"
+           "func Init() Root {\n\twire.Build(NewRoot, dep.NewA, depx.NewB)\n\treturn Root{}\n}\n\n"
+           "func helper() string { return \"H\" }\n\nfunc helper2() string { return \"H2\" }\n\nfunc aide() string { return helper() + helper2() }\n\nfunc sprint(a ...interface{}) string { return fmt.Sprint(a...) }\n\n"
+           "var _ = str.ToUpper\nvar _ = dep.Exported\nvar _ = depx.NewB\n\n")
+    run_all = "func RunAll() []string {\n\treturn []string{\n" + "".join("\t\t%s(),\n" % c for c in calls) + "\t}\n}\n"
+    return hdr + "\n\n".join(body) + "\n\n" + run_all, calls
+
+
+def run_matrix(rep, tier):
+    ws = Workspace()
+    fails = []
+    try:
+        R.build_tools()
+        d = ws.root + "/corp"
+        os.makedirs(d + "/dep")
+        os.makedirs(d + "/other/dep")
+        os.makedirs(ws.root + "/cmd/run")
+        open(d + "/dep/dep.go", "w").write(DEP)
+        open(d + "/other/dep/dep.go", "w").write(DEP2)
+        open(d + "/a.go", "w").write(A_GO)
+        src, calls = matrix_source()
+        open(d + "/wire.go", "w").write(src)
+        open(ws.root + "/cmd/run/main.go", "w").write(MAIN)
+        rc0, out0, err0 = run(["go", "run", "-tags", "wireinject", "./cmd/run"], cwd=ws.root, env=dict(GOENV), timeout=300)
+        if rc0 != 0:
+            fails.append({"stream": "c15-matrix", "why": ["matrix does not run with the wireinject tag (harness problem): " + (out0 + err0)[-1500:]]})
+            return [], fails
+        rc, out, err = ws.wire(["gen", "./corp"])
+        if rc != 0 or panicked(err):
+            fails.append({"stream": "c15-matrix", "why": ["wire gen failed on the collision matrix (rc=%s): %s" % (rc, err[-600:])]})
+            return [], fails
+        gen = d + "/wire_gen.go"
+        text = open(gen).read()
+        rc1, out1, err1 = run(["go", "run", "./cmd/run"], cwd=ws.root, env=dict(GOENV), timeout=300)
+        lines0 = out0.strip().split("\n")
+        rep.evaluations += len(calls)
+        for c in calls:
+            rep.nontrivial.add("matrix:" + c)
+        if rc1 != 0:
+            # attribute compile errors to the copied function they lie in
+            glines = text.split("\n")
+            culprits = {}
+            for m in re.finditer(r"wire_gen\.go:(\d+):\d+: (.*)", out1 + err1):
+                ln = int(m.group(1))
+                fn = next((re.match(r"(?:func|type) (?:\([^)]*\) )?(\w+)", glines[k]).group(1) for k in range(min(ln, len(glines)) - 1, -1, -1)
+                           if re.match(r"(?:func|type) (?:\([^)]*\) )?(\w+)", glines[k])), "?")
+                culprits.setdefault(fn, m.group(2))
+            for fn, msg in list(culprits.items())[:6]:
+                tag = fn.split("_", 1)[-1]
+                orig = next((b for b in src.split("\n\n// ") if ("F_" + tag + "(") in b), "")
+                fails.append({"stream": "c15-matrix", "why": ["the copy of %s does not compile: %s" % (fn, msg)], "original": orig[:1200],
+                              "copied": "\n".join(l for l in _func_text(text, fn))[:1200]})
+            if not culprits:
+                fails.append({"stream": "c15-matrix", "why": ["the package does not build/run with the copied declarations: " + (out1 + err1)[-800:]]})
+            return [], fails
+        lines1 = out1.strip().split("\n")
+        for c, a, b in zip(calls, lines0, lines1):
+            if a != b:
+                fails.append({"stream": "c15-matrix", "why": ["the copy of %s prints %r, the original %r" % (c, b, a)], "copied": "\n".join(_func_text(text, c))[:1200]})
+        if len(lines0) != len(lines1):
+            fails.append({"stream": "c15-matrix", "why": ["outputs differ in length"]})
+        # identifiers that are not local entities keep their names: fields and methods
+        for nm in NAMES:
+            for kind in ("field", "method"):
+                fn = "F_%s_%s" % (kind, nm)
+                body = "\n".join(_func_text(text, fn))
+                want = ("v.%s++" % nm) if kind == "field" else (".%s()" % nm)
+                rep.evaluations += 1
+                if want not in body:
+                    fails.append({"stream": "c15-matrix", "why": ["%s: a %s named %s was renamed in the copy" % (fn, kind, nm)], "copied": body[:800]})
+        rep.coverage["c15_matrix"] = {"functions": len(calls), "kinds": len(KINDS), "names": NAMES}
+    finally:
+        ws.close()
+    return [], fails
+
+
+def _func_text(text, fn):
+    out, on = [], False
+    for l in text.split("\n"):
+        if re.match(r"func (\([^)]*\) )?%s\b" % re.escape(fn), l):
+            on = True
+        if on:
+            out.append(l)
+            if l == "}" or (l.startswith("func ") and l.endswith("}")):
+                break
+    return out
